@@ -1914,6 +1914,22 @@ func main() {
 			}
 		}
 	}
+	// the series indexes on disk: <index id>_<start ns>_<end ns> (the tree model's index groups must be these time ranges)
+	var idxRanges [][2]int64
+	if ents, err := filepath.Glob(filepath.Join(dir, "og", "data", "data", "*", "*", "*", "index", "*")); err == nil {
+		for _, e := range ents {
+			parts := strings.Split(filepath.Base(e), "_")
+			if len(parts) != 3 {
+				continue
+			}
+			a, err1 := strconv.ParseInt(parts[1], 10, 64)
+			b, err2 := strconv.ParseInt(parts[2], 10, 64)
+			if err1 == nil && err2 == nil && b > a { // (the deleted-series table is <max uint64>_0_0)
+				idxRanges = append(idxRanges, [2]int64{a / 1e9, b / 1e9})
+			}
+		}
+	}
+	gen.Emit(map[string]any{"index_ranges": idxRanges, "base_sec": baseSec})
 	gen.Emit(map[string]any{"compaction": comp})
 	for _, rn := range rs {
 		gen.Emit(rn.out)
